@@ -443,3 +443,5 @@ w("C15", "reset_index orders the labels by a set again", "pandera/api/dataframe/
   "            else list(dict.fromkeys(level))\n", "            else list(set(level))\n")
 w("C15", "set_index orders the keys by a set again", "pandera/api/dataframe/container.py",
   "            list(dict.fromkeys(keys)) if not isinstance(keys, list) else keys\n", "            list(set(keys)) if not isinstance(keys, list) else keys\n")
+w("C15", "reset_index removes levels through the inherited remove_columns again", "pandera/api/dataframe/container.py",
+  "            if len(kept_levels) == 1:\n                new_index = kept_levels[0]\n", "            if len(kept_levels) == 1:\n                new_index = kept_levels[0]\n            elif len(kept_levels) == 2:\n                new_index = new_schema.index.remove_columns(level_temp)\n")
